@@ -13,9 +13,11 @@ ENGINES = {
     'sf': dict(quick=400, thorough=8000),
     'sfwrap': dict(quick=600, thorough=20000),
     'caches': dict(quick=1500, thorough=40000),
+    'validators': dict(quick=20000, thorough=400000),
 }
 
 PROPS = {
+    'C11': dict(spec_mods=['SsoSpec.C11'], engines=['validators']),
     'C15': dict(spec_mods=['SsoSpec.C15'], engines=['breaker']),
     'C16': dict(spec_mods=['SsoSpec.C16'], engines=['sf', 'sfwrap']),
     'C17': dict(spec_mods=['SsoSpec.C17'], engines=['caches']),
@@ -24,6 +26,8 @@ PROPS = {
 # model branches every run must reach (engine:branch); a branch the implementation can no longer reach
 # means it no longer behaves like the model on the prelude's representative.
 FLOORS = {
+    'C11': ['validators:addr/ok', 'validators:addr/denied', 'validators:addr/invalid-email', 'validators:domain/ok', 'validators:domain/denied',
+            'validators:domain/invalid-email'],
     'C17': ['caches:gc/hit', 'caches:gc/miss', 'caches:gc/error', 'caches:gc/purge', 'caches:fc/updBegin/began', 'caches:fc/updBegin/busy',
             'caches:fc/updEnd/updated', 'caches:fc/loopStart/loopStarted', 'caches:fc/loopStart/loopRefused', 'caches:fc/loopUpdBegin/began',
             'caches:fc/loopUpdBegin/busy', 'caches:fc/loopUpdEnd/updated', 'caches:fc/loopExit/exited', 'caches:fc/stop/stopped', 'caches:fc/get/got',
@@ -51,6 +55,8 @@ COMMON_TB = [
 ]
 
 TB = {
+    'C11': ["strings.ToLower is uninterpreted in the theorems and shipped as an oracle table by the harness (computed by calling the library directly)",
+            "modelled: internal/pkg/validators/*.go, the validator list built in proxy.New, the 'not all failed' test of OAuthCallback and the per-request loop of Authenticate"],
     'C17': ["Go's sync.RWMutex semantics: the two locked sections of Update and the locked section of RefreshLoop are atomic, fillFunc runs outside the lock (skeletons re-extracted and compared on every run)",
             "LocalCache is run with ttl 0 and its TTL goroutines are replaced by purge events fired through an accessor (any key, any time); the ticker of RefreshLoop is set to one hour so tick-driven refreshes do not occur in the lockstep runs — the model allows them (loopUpdBegin is enabled whenever the loop is idle)",
             "Google/Cognito membership functions run against a harness-supplied MemberSetCache and mock admin services (real provider code, fake directory); syncmap.Map is assumed linearizable",
@@ -65,12 +71,14 @@ TB = {
 }
 
 RULES = {
+    'C11': "validators: rule lists of 0-3 entries (addresses or domains, '*' alone and among others) x e-mails from a grammar (case variants, Unicode with special case mappings, several '@', empty local part, no '@', look-alike and sub-domains, trailing '*'), one third constructed to hit; non-trivial = non-empty rules and non-empty e-mail; distinct = distinct case hash",
     'C17': "three case kinds, one third each: gc = 4-20 questions/purges over 2-3 users x permuted subsets of 3-4 group names with directory answers/errors; fc = 5-30 lockstep events (Update begin/end with ok/notFound/err, RefreshLoop, loop fill end, Stop, Get) over 1-3 groups and 4 caller threads; mem = random cache contents x asked subsets x directory answers for Google and Cognito; fixed prelude covers every branch; non-trivial = a cache hit (gc), a fill began (fc), a partly cached question (mem); distinct = distinct case hash",
     'C16': "sf: schedules over 2-8 threads x 1-3 keys (arrive | fnReturn v | remove | wake), arrivals before/while/after the leader runs and inside the done/remove window, values and errors; sfwrap: 2-5 callers per case over every coalesced method of both middlewares with tokens/emails/group sets drawn to collide or differ (incl. ':' and ',' in names, permuted group order), executions held until all callers arrived; non-trivial = at least one caller joined another's call; distinct = distinct case hash",
     'C15': "event lists (start i | complete i ok | tick d) over random rule tables (trip threshold 1-4 on fail or fail+cur, reset 1-3, back-off const/linear/cur-dependent, half-open cap 0-3), 5-45 events, ticks drawn at exactly / just before / just after the back-off; a fixed prelude covers every LTS step kind; a case is non-trivial when the breaker changed state at least once; distinct = distinct (cfg, ops) hash",
 }
 
 ASSUME = {
+    'C11': ["strings.ToLower may be any function (theorems quantify over it)", "redeemCode rejects an empty e-mail before validators run (modelled; checked in proxyflow)"],
     'C17': ["mutex atomicity; syncmap linearizability", "sort.Strings is a sorted permutation (harness ships the sorted list)", "timer-driven events are nondeterministic events of the model, real-time bounds not claimed"],
     'C16': ["mutex / WaitGroup atomicity and happens-before as documented by Go", "sort.Strings returns a sorted permutation (sortedGroups is computed by the harness with the same library call)",
             "statsd side effects ignored"],
